@@ -143,7 +143,7 @@ def check_dump(world, dump):
                         key = "%s::%s" % (name, e["name"].lower())
                         isc = inner[key]
                         tt = isc["imports"]["types"] if e["kind"] == "iface" else isc["table"]["types"]
-                        exp_refs.add((key, "argtype", "a", tuple(tt[e["argtype"].lower()])))
+                        exp_refs.add((key, "argtype", e["name"].lower() + "_a", tuple(tt[e["argtype"].lower()])))
         act_refs = {(r[0], r[1], r[2], tuple(r[3][:2])) for r in dump["refs"]}
         for r in sorted(exp_refs - act_refs):
             got = [a for a in act_refs if a[:3] == r[:3]] if r[1] != "call" else []
